@@ -10,6 +10,14 @@ CHECKS = {
    text="Server.tla (Workspace + one action per endpoint + malformed requests) is model-checked; its state graph is toured edge by edge over HTTP against the live in-process service (every state x endpoint, every state x malformed-request kind, with evaluation probes), plus seeded random request sequences; TLC decodes every raw response body with a JSON recogniser written in TLA+ (JsonText.tla) and searches for a Server behaviour that explains each sequence (hidden workspace state inferred). Echo evaluations of TLC-enumerated values via /evaluate and /tck/evaluate are decoded and compared by TLC.",
    note="Workspace state behind the service is not observable (inferred by TLC); trusts TLC, JsonText.tla (self-tested against an independent corpus), the raw HTTP client of the harness.",
    technique="TLA+ spec + TLC: edge-tour replay over HTTP, trace validation with hidden state, JSON decoding in TLA+"),
+ "C09": dict(cat="model_checking", design="DESIGN.md §5 C09",
+   text="Exhaustive over a finite value alphabet emitted by the specification (null, booleans, numbers incl. equal values of different scale, strings, dates, times, date-times, both durations, lists, contexts, ranges, a function): all ordered pairs under = != < <= > >= and or, all ordered triples under between / in-range (four bracket forms) / comparison conjunctions, plus seeded random pools of numbers, strings and dates. TLC evaluates the laws of the property directly over the table of observed results (truth tables for and/or; symmetry, negation, mirroring, trichotomy, between/in/comparison agreement).",
+   note="Operands are bound as values in the scope (no parsing involved); the verdict depends on no pointwise model beyond the and/or truth tables stated in the property. Trusts TLC and the harness value builder.",
+   technique="TLA+ laws evaluated by TLC over exhaustive observation tables of the real evaluator"),
+ "C16": dict(cat="model_checking", design="DESIGN.md §5 C16",
+   text="FeelType.tla defines equivalence, conformance, type-of and coercion; TLC checks the preorder/equivalence laws on the specification's own relations over the whole universe (10 simple types closed under list/range/context/function to depth 2; 103 types quick, 295 thorough), and then evaluates the same laws, the variance clauses (as equalities between matrix entries), pointwise agreement with DMN 10.3.2.9 and the coercion rules over the full matrices observed from is_equivalent / is_conformant / coerced (all pairs, all triples for transitivity, universe x value pool for coercion).",
+   note="Trusts TLC, FeelType.tla's transcription of DMN 10.3.2.9, and the harness's type/value builders.",
+   technique="TLA+ spec + TLC: laws model-checked on the spec and evaluated over exhaustive observed matrices"),
 }
 NOT_YET = {}
 props = [json.loads(l) for l in open('/verif/properties.jsonl')]
